@@ -355,7 +355,10 @@ func regExec(c core.Case) core.Case {
 			listing(ids)
 		case "rangex":
 			var ids [][2]int
-			types.RangeExtensions(func(t protoreflect.ExtensionType) bool { ids = append(ids, idOf(t.TypeDescriptor().Descriptor())); return true })
+			types.RangeExtensions(func(t protoreflect.ExtensionType) bool {
+				ids = append(ids, idOf(t.TypeDescriptor().Descriptor()))
+				return true
+			})
 			listing(ids)
 		case "rangexm":
 			var ids [][2]int
